@@ -70,6 +70,13 @@ func (e *Engine) Solve(dir string, timeoutS int, all bool, par chan struct{}) []
 		A := "(Array (_ BitVec 64) (_ BitVec 8))"
 		e.Extra = append(e.Extra, "(assert (forall ((a "+A+") (o (_ BitVec 64)) (s "+A+") (so (_ BitVec 64)) (n (_ BitVec 64)) (i (_ BitVec 64))) (! (= (select ("+spl+" a o s so n) i) (ite (and (bvsle o i) (bvslt i (bvadd o n))) (select s (bvadd so (bvsub i o))) (select a i))) :pattern ((select ("+spl+" a o s so n) i)))))")
 	}
+	// strings made from bytes: string(b[off:off+n]) has exactly those bytes
+	if _, used := e.C.Funcs["gs.of"]; used {
+		if _, used2 := e.C.Funcs["gs.bytes"]; used2 {
+			A := "(Array (_ BitVec 64) (_ BitVec 8))"
+			e.Extra = append(e.Extra, "(assert (forall ((a "+A+") (o (_ BitVec 64)) (n (_ BitVec 64)) (i (_ BitVec 64))) (! (=> (and (bvsle (_ bv0 64) i) (bvslt i n)) (= (select (gs.bytes (gs.of a o n)) i) (select a (bvadd o i)))) :pattern ((select (gs.bytes (gs.of a o n)) i)))))")
+		}
+	}
 	results := make([]OblResult, len(e.Obls))
 	var pending []int
 	for i, o := range e.Obls {
@@ -130,11 +137,36 @@ func (e *Engine) Solve(dir string, timeoutS int, all bool, par chan struct{}) []
 			extra = nil // satisfiability with quantified axioms is rarely decided; the axioms only restrict models
 		}
 		script := e.C.Script(asserts, extra, vals)
+		// quantified facts assumed from callee contracts (byte contents of what was written or read) are irrelevant to
+		// most goals and slow every solver down: first try without them (fewer assumptions: an unsat answer stands)
+		light := ""
+		if !o.ExpectSat {
+			var la []*smt.Term
+			dropped := false
+			for _, a := range e.Assumes[:o.NAssume] {
+				if hasQuant(a, map[int]bool{}) {
+					dropped = true
+					continue
+				}
+				la = append(la, a)
+			}
+			if dropped {
+				la = append(append(la, axioms...), e.C.Not(o.Cond))
+				light = e.C.Script(la, extra, nil)
+			}
+		}
 		mu.Unlock()
 		var r smt.Result
 		if o.ExpectSat {
 			r = runBatch(o.Name, script)
 		} else {
+			if light != "" {
+				if lr := runBatch(o.Name+"__light", light); lr.Status == "unsat" {
+					res := &results[i]
+					res.Solver, res.Seconds, res.How, res.Status = lr.Solver, lr.Seconds, "single-light", "discharged"
+					return
+				}
+			}
 			r = runScript(o.Name, script)
 		}
 		res := &results[i]
@@ -185,15 +217,50 @@ func (e *Engine) Solve(dir string, timeoutS int, all bool, par chan struct{}) []
 		asserts := append(append([]*smt.Term{}, e.Assumes[:maxA]...), axioms...)
 		asserts = append(asserts, e.C.Not(e.C.And(conds...)))
 		script := e.C.Script(asserts, e.Extra, nil)
+		// first without the quantified assumptions (see single)
+		lightScript := ""
+		{
+			var la []*smt.Term
+			dropped := false
+			for _, a := range e.Assumes[:maxA] {
+				if hasQuant(a, map[int]bool{}) {
+					dropped = true
+					continue
+				}
+				la = append(la, a)
+			}
+			if dropped {
+				la = append(append(la, axioms...), e.C.Not(e.C.And(conds...)))
+				lightScript = e.C.Script(la, e.Extra, nil)
+			}
+		}
 		mu.Unlock()
 		t0 := time.Now()
-		r := runBatch(fmt.Sprintf("%s__batch%d_%d", e.namePrefix, group[0], len(group)), script)
+		var r smt.Result
+		if lightScript != "" {
+			r = runBatch(fmt.Sprintf("%s__lbatch%d_%d", e.namePrefix, group[0], len(group)), lightScript)
+		}
+		if r.Status != "unsat" {
+			r = runBatch(fmt.Sprintf("%s__batch%d_%d", e.namePrefix, group[0], len(group)), script)
+		}
 		if r.Status == "unsat" {
 			for _, i := range group {
 				results[i].Status = "discharged"
 				results[i].How = "batch"
 				results[i].Solver = r.Solver
 				results[i].Seconds = time.Since(t0).Seconds() / float64(len(group))
+			}
+			return
+		}
+		// the conjunction was not decided quickly: with few obligations go straight to one query each (every
+		// further bisection level costs two more short-budget attempts); large groups are halved first
+		if len(group) <= 64 {
+			for _, i := range group {
+				wg.Add(1)
+				go func(i int) {
+					defer wg.Done()
+					single(i)
+				}(i)
 			}
 			return
 		}
@@ -236,3 +303,19 @@ func MatchKey(pat, key string) bool {
 }
 
 func regexpCompile(p string) (*regexp.Regexp, error) { return regexp.Compile(p) }
+
+func hasQuant(t *smt.Term, seen map[int]bool) bool {
+	if seen[t.ID()] {
+		return false
+	}
+	seen[t.ID()] = true
+	if strings.HasPrefix(t.Op, "forall") {
+		return true
+	}
+	for _, a := range t.Args {
+		if hasQuant(a, seen) {
+			return true
+		}
+	}
+	return false
+}
